@@ -309,6 +309,38 @@ def scen_default(ki, vi, shape, parse_keys, sepi):
     return devs
 
 
+MUTABLE_FRAGS = ('[1, "a"]', '{"k": [1]}', '{1, 2}', '[]', '{}', '[[1], 2]')
+
+
+def scen_reparse(fi, as_key_too):
+    """every call builds its own fresh literals: mutating an earlier result must not show in a later call"""
+    global LAST_INFO
+    import ast as _ast
+    devs = []
+    txt = MUTABLE_FRAGS[vfw.prelude.pick(fi, len(MUTABLE_FRAGS))]
+    exp = _ast.literal_eval(txt)
+    r1 = parse_to_dict([('a', txt), ('b', txt)])
+    v1, v1b = r1.get('a'), r1.get('b')
+    if v1 is v1b and v1 is not None:
+        devs.append('two-values-share-one-object')
+    try:
+        if isinstance(v1, list):
+            v1.append('mutated')
+        elif isinstance(v1, dict):
+            v1['mutated'] = 1
+        elif isinstance(v1, set):
+            v1.add('mutated')
+    except Exception:  # noqa
+        pass
+    r2 = parse_to_dict(dict([('a', txt)]) if as_key_too else ['a=' + txt])
+    v2 = r2.get('a')
+    if type(v2) is not type(exp) or v2 != exp:
+        devs.append('later-call-returned-mutated-or-stale-object')
+    if not vfw.prelude.tracing():
+        LAST_INFO = {'text': txt, 'first': repr(v1), 'second': repr(v2)}
+    return devs
+
+
 def twin_joined(item, sep):
     """Reachability: 'the separator occurs twice and the value part is non-empty'."""
     devs = scen_joined(item, sep, True, 0, 0)
@@ -352,6 +384,8 @@ def cells(prop, tier):
         out.append(Cell(name='default_keys_shape%d' % shape, sig='ki: int, parse_keys: bool',
                         pre=['0 <= ki <= %d' % (N_KEYABLE - 1)],
                         body='H.scen_default(ki, 0, %d, parse_keys, 0)' % shape, tier=q, timeout=170, family='default'))
+    out.append(Cell(name='default_reparse_after_mutation', sig='fi: int, as_key_too: bool', pre=['0 <= fi <= %d' % (len(MUTABLE_FRAGS) - 1)],
+                    body='H.scen_reparse(fi, as_key_too)', tier=q, timeout=120, family='default'))
     out.append(Cell(name='default_seps', sig='ki: int, vi: int, sepi: int',
                     pre=['10 <= ki <= 18 and 15 <= vi <= 24 and 1 <= sepi <= 3'],
                     body='H.scen_default(ki, vi, 2, True, sepi)', tier=q, timeout=170, family='default'))
